@@ -191,6 +191,9 @@ class Judge:
     def judge(self, cellkind, owner_entry, source, actual, ctx_path=None, need_current=False, exempt_abs=False, itemrel_repeat=None, alt_ctx=None):
         """source: cell text with ${..}; actual: output string. Captures each substituted path and judges it."""
         from .C05 import value_pattern
+        # a line break inside the cell reaches an attribute as a line break, which every XML parser hands back as a space
+        source = source.replace("\r\n", " ").replace("\n", " ").replace("\r", " ")
+        actual = actual.replace("\n", " ")
         m = value_pattern(source).match(actual)
         ctxp = ctx_path or owner_entry.path
         if m is None:
@@ -355,6 +358,9 @@ def check_form(ctx, form, klass, sig):
         ctx.ctr(f"rejected:{klass}")
         if not o.exc_is_pyxform:
             ctx.ctr("internal_exception_seen(C17's business)")
+            if klass in ("indexed-repeat", "lone-cell", "container-target", "path-prefix", "same-text"):
+                # the hand-built families are valid forms: an internal exception there means the substitution machinery itself fell over
+                ctx.viol(f"substitution-crashed:{klass}:{o.exc_type}", f"[{sig}] {o.brief()[:300]} at {o.exc_frame}", common.witness(form, klass=klass))
         return None
     try:
         p = xf.Parsed(o.xform)
@@ -602,7 +608,8 @@ def indexed_repeat_forms():
                 if depth < 3:
                     # the inner repeats still exist; indexing fewer levels is legal XPath-wise for this check (only paths are judged)
                     pass
-                expr = f"indexed-repeat({', '.join(args)})"
+                sep = ",\n " if (depth + int(pair) + len(where)) % 3 == 0 else ", "  # a long call wrapped over several lines of the cell
+                expr = f"indexed-repeat({sep.join(args)})"
                 if pair:
                     expr = f"concat({expr}, indexed-repeat(${{iq}}, ${{ir1}}, 2))"
                 calc = Row("q", "calculate", "ircalc", {"calculation": expr})
